@@ -54,4 +54,26 @@ OBLIGATIONS = {
         "C20.velocity_step_sq", "C20.labolle_const_reduces", "C20.sampleK_capped", "C20.substeps_cover",
         "C20.zCoarse_ge", "C20.zCoarse_near", "RealInst.sqrtLaws",
     ],
+    "C09": [
+        "C09.quad3_knots", "C09.hatch_time_table", "C09.hatch_time_clamps", "C09.hatch_time_pos", "C09.egg_rate",
+        "C09.egg_stage_increases", "C09.egg_activates_iff", "C09.egg_noop_on_others", "C09.larval_stage_eq",
+        "C09.larva_stage_increases", "C09.larva_deactivates_iff", "C09.larva_noop_on_others",
+        "C09.sandeel_stage_monotone", "C09.sandeel_history_monotone", "C09.shrimp_delta_stage_nonneg",
+        "C09.shrimp_delta_stage_pos", "C09.shrimp_stage_range", "C09.shrimp_stage_monotone", "C09.shrimp_stage_rate",
+        "C09.shrimp_length_table", "C09.shrimp_length_monotone", "C09.egg_keeps_weight", "C09.larva_weight_eq",
+        "C09.larva_weight_floor", "C09.growth_rate_pos", "C09.growth_pos",
+        "InterpLemmas.interp_mono", "InterpLemmas.interpGo_ge", "InterpLemmas.interpGo_le",
+        "RealInst.expLaws", "RealInst.rpowLaws", "RealInst.logLaws",
+    ],
+    "C16": [
+        "C16.density_poly_form", "C16.coefB_lower", "C16.coefC_bounds", "C16.density_increases_with_salinity",
+        "C16.density_copies_equal", "C16.viscosity_copies_equal", "C16.viscosity_generated_copies_equal",
+        "C16.sunheight_copy_equal", "C16.density_check_values", "C16.fabs_neg", "C16.fsign_neg",
+        "C16.sink_speed_odd", "C16.sink_speed_zero_at_neutral", "C16.sink_speed_stokes", "C16.sink_speed_sign_stokes",
+        "C16.sink_speed_sign_dallavalle", "C16.larva_swims_down_iff", "C16.larva_uses_light_at_depth",
+        "C16.lice_up_in_light", "C16.lice_down_in_fresh", "C16.lice_velocity_values", "C16.shrimp_toward_pref",
+        "C16.band_light_bounds", "C16.band_light_continuity", "C16.cascade_eq_band", "C16.surface_light_is_band",
+        "C16.surface_light_bounds", "C16.day_ratio_unit", "C16.light_decay", "C16.light_decay_monotone",
+        "C16.light_decay_additive", "RealInst.sqrtLaws", "RealInst.expLaws", "RealInst.rpowLaws",
+    ],
 }
